@@ -379,37 +379,67 @@ pub fn run(ctx: &Ctx) -> Report {
             fams.push((4, multisets(256, 2), "n4_multisets_le2"));
         }
     }
+    let mut explicit: Vec<(usize, Vec<Vec<Clause>>, String)> = Vec::new();
     for (n, mut sets, name) in fams {
         let types = clause_types(n);
         ctx.rotate(&mut sets);
-        let chunks: Vec<&[Vec<usize>]> = sets.chunks(256).collect();
+        explicit.push((n, sets.iter().map(|s| s.iter().map(|&i| types[i].clone()).collect()).collect(), name.to_string()));
+    }
+    // many clauses: every multiset of 5..7 binary clauses over 3 variables (12 types), so that
+    // one eliminated variable gathers 5 and more subtrees; stars and disconnected components
+    {
+        let t3 = clause_types(3);
+        let bin: Vec<Clause> = t3.iter().filter(|c| c.len() == 2 && c[0].0 != c[1].0).cloned().collect();
+        for (k, step) in [(5usize, ctx.tier.pick(3, 1)), (6, ctx.tier.pick(17, 1)), (7, ctx.tier.pick(67, 1))] {
+            let sets: Vec<Vec<Clause>> = multisets(bin.len(), k).into_iter().filter(|m| m.len() == k).step_by(step).map(|m| m.into_iter().map(|i| bin[i].clone()).collect()).collect();
+            explicit.push((3, sets, format!("n3_{}_binary_clauses{}", k, if step > 1 { format!("_every_{}th", step) } else { String::new() })));
+        }
+        let mut stars: Vec<Vec<Clause>> = Vec::new();
+        let maxk = ctx.tier.pick(6, 7);
+        for k in 5..=maxk {
+            // star: x0 with k spokes; components: k unit clauses on distinct variables; both polarities of the hub
+            for pol in [true, false] {
+                stars.push((1..=k).map(|i| vec![(0usize, pol), (i, true)]).collect());
+            }
+            stars.push((0..k).map(|i| vec![(i, i % 2 == 0)]).collect());
+            // k copies of one clause plus a second clause
+            let mut c: Vec<Clause> = vec![vec![(0, true), (1, false)]; k];
+            c.push(vec![(1, true), (2, true)]);
+            stars.push(c);
+        }
+        explicit.push((maxk + 1, stars, "stars_components_duplicates_5plus".to_string()));
+    }
+    for (n, sets, name) in explicit {
+        let chunks: Vec<&[Vec<Clause>]> = sets.chunks(if n > 4 { 1 } else { 256 }).collect();
         let fam = par_run(ctx, &chunks, |_, chunk| {
             let mut r = Report::default();
             r.exhaustive = true;
-            for s in chunk.iter() {
-                let clauses: Vec<Clause> = s.iter().map(|&i| types[i].clone()).collect();
+            for clauses in chunk.iter() {
                 r.states += 1;
                 r.transitions += 1;
-                if let Some((k, w)) = check_orders_of(&clauses) {
-                    r.violation(format!("wellformed:{}", k), format!("cnf {}: {}", cnf_json(&clauses), w), json!({"kind": "orders", "cnf": cnf_json(&clauses)}));
+                if let Some((k, w)) = check_orders_of(clauses) {
+                    r.violation(format!("wellformed:{}", k), format!("cnf {}: {}", cnf_json(clauses), w), json!({"kind": "orders", "cnf": cnf_json(clauses)}));
                 }
                 if clauses.is_empty() {
                     r.add_extra("excluded_empty_formula_for_dtree", 1);
                     continue;
                 }
-                let nv = num_vars(&clauses);
+                let nv = num_vars(clauses);
                 for elim in permutations(nv) {
                     r.transitions += 1;
                     r.traces += 1;
                     if clauses.len() >= 2 {
                         r.distinct_nontrivial += 1;
                     }
-                    if let Some((k, w)) = check_cnf_case(&clauses, &elim) {
+                    if let Some((k, w)) = check_cnf_case(clauses, &elim) {
                         r.violation(
                             format!("wellformed:{}", k),
-                            format!("cnf {} elimination order {:?}: {}", cnf_json(&clauses), elim, w),
-                            json!({"kind": "dtree", "cnf": cnf_json(&clauses), "elim": elim}),
+                            format!("cnf {} elimination order {:?}: {}", cnf_json(clauses), elim, w),
+                            json!({"kind": "dtree", "cnf": cnf_json(clauses), "elim": elim}),
                         );
+                        if r.n_violations > 64 {
+                            break;
+                        }
                     }
                 }
                 if r.n_violations > 64 {
@@ -419,7 +449,7 @@ pub fn run(ctx: &Ctx) -> Report {
             r
         });
         rep.add_extra(&format!("{}_cnfs", name), fam.states);
-        rep.bound(name, json!({"variables": n, "cnfs": sets.len(), "elimination_orders": "all permutations"}));
+        rep.bound(&name, json!({"max_variables": n, "cnfs": sets.len(), "elimination_orders": "all permutations"}));
         rep.merge(fam);
     }
     // vtree side
